@@ -34,7 +34,7 @@
 
 From Coq Require Import ZArith QArith Qround List Bool Arith.
 Import ListNotations.
-Open Scope Z_scope.
+Local Open Scope Z_scope.
 
 (* ------------------------------------------------------------------ identifiers *)
 Definition kwid := nat.          (* keyword: fixed numbering, see translate/t_val.py KW_IDS *)
